@@ -21,7 +21,9 @@ SPEC = {
         "sort.Sort(sort.StringSlice) = insertion sort by bytewise order; strings.HasPrefix = List.isPrefixOf",
         "NOT modelled: the debug callback's arguments; an iteration direction other than forward/backward (GetIterDirection panics); "
         "mutation of a buffer held by a batch that is still going to be committed, and of the realm buffer passed to WithRealm "
-        "(both are kept by reference in the code; the statement does not speak about them)",
+        "(both are kept by reference in the code - measured on every run, evidence coverage.extra observation_* - the statement "
+        "does not speak about them); after a final Commit every batch value buffer is scribbled, through every wrapper stack "
+        "(histogram commit-then-scribble:stack=...)",
     ],
     "manifest": {
         "text": "Theorems (no bounds on history length, view tree, realm/key/prefix bytes, wrapper stack): the model of mapdb with views, "
